@@ -370,10 +370,13 @@ func (i *Interpreter) Exec(ctx context.Context, bs match.Bindings, props core.St
 		if _, is := err.(*goja.InterruptedError); is {
 			return nil, Interrupted
 		}
-		return nil, err
+		return nil, plainError(err)
 	}
 
-	x := v.Export()
+	x, err := export(v)
+	if err != nil {
+		return nil, err
+	}
 
 	var result match.Bindings
 	switch vv := x.(type) {
@@ -390,6 +393,37 @@ func (i *Interpreter) Exec(ctx context.Context, bs match.Bindings, props core.St
 	exe.Bs = result
 
 	return exe, nil
+}
+
+// export gets the Go value of what the script returned.
+//
+// That can run code of the script (a getter, say), which can throw,
+// and that panic must not get past us.
+func export(v goja.Value) (x interface{}, err error) {
+	defer func() {
+		if r := recover(); r != nil {
+			err = fmt.Errorf("%s", r)
+		}
+	}()
+	return v.Export(), nil
+}
+
+// plainError renders the error of a script now.
+//
+// The text of an exception is computed from the value that the script
+// threw, possibly by code of the script (toString), which can throw
+// in turn.  Nobody who looks at the error later should have to
+// survive that.
+func plainError(err error) (plain error) {
+	defer func() {
+		if r := recover(); r != nil {
+			plain = fmt.Errorf("script threw a value that has no text: %v", r)
+		}
+	}()
+	if _, is := err.(*goja.Exception); is {
+		return errors.New(err.Error())
+	}
+	return err
 }
 
 // canonicalize is an abomination
